@@ -285,6 +285,10 @@ SYMNAME_MASKED = '#<symbol-0x?>'.encode().hex()
 SPELLED = re.compile(rb'%0 \(cons %x(?: \(cons %[0-9a-f?])+')
 SPELLED_MARK = b'%0 (cons %x (cons %?'
 SPELLED_FLAT = re.compile(rb'%0 %x(?: %[0-9a-f?])+')
+# … and the character dump of a STRING that contains such a spelled-out address (a printed text printed again):
+# the characters of `%0 (cons %x (cons %5 (cons %6 …`
+_CONS = ' C32 C40 C99 C111 C110 C115 C32 C37 '
+SPELLED_DUMP = re.compile('C37 C48' + _CONS + 'C120(?:' + _CONS + '(?:C4[89]|C5[0-7]|C9[7-9]|C10[0-2]|C63))+')
 
 def canon(line):
     """mask address text inside hex-encoded printed text (the only permitted variation)"""
@@ -308,6 +312,8 @@ def canon(line):
     line = HEXRUN.sub(fix, line)
     line = SYMNAME.sub(SYMNAME_MASKED, line)
     line = ADDR_DUMP.sub('C48 C120 C63', line)
+    if SPELLED_DUMP.search(line):
+        line = SPELLED_DUMP.sub('C37 C48' + _CONS + 'C120' + _CONS + 'C63', line).replace(' C41', '')
     if line.startswith('PANIC '):
         return 'PANIC'
     if line.startswith('CRASH:'):
